@@ -29,7 +29,7 @@ class C05Run(E2Run):
     prop = "C05"
 
     def profile(self) -> Dict:
-        return {"max_hosts_per_subnet": 2, "tight_links": 0.0, "avoid": ["listen_on_ports", "routing_loop"], "users": 0.7}
+        return {"max_hosts_per_subnet": 2, "tight_links": 0.0, "avoid": ["listen_on_ports"], "users": 0.7}
 
     def after_build(self):
         from dst.scenario import Gen
